@@ -191,6 +191,7 @@ type env struct {
 	h     History
 	trace []Event
 	prob  string
+	gate  *gate // nil: calls interleave at the environment calls only (see yield.go)
 }
 
 func (e *env) run(ctx context.Context) (int, *Run) {
@@ -223,11 +224,11 @@ func contains(xs []uint64, x uint64) bool {
 
 // attestation data provider
 func (e *env) AttestationData(ctx context.Context, opts *api.AttestationDataOpts) (*api.Response[*phase0.AttestationData], error) {
-	_, r := e.run(ctx)
+	i, r := e.run(ctx)
 	if r == nil {
 		return nil, errors.New("no run")
 	}
-	sleepMs(r.Timing.Fetch)
+	e.pause(i, r.Timing.Fetch)
 	if r.Script.FetchErr {
 		return nil, errors.New("scripted data failure")
 	}
@@ -246,11 +247,11 @@ func (e *env) AttestationData(ctx context.Context, opts *api.AttestationDataOpts
 
 // accounts provider: like the dirk and wallet account managers, only requested indices are returned
 func (e *env) ValidatingAccountsForEpochByIndex(ctx context.Context, _ phase0.Epoch, indices []phase0.ValidatorIndex) (map[phase0.ValidatorIndex]e2wtypes.Account, error) {
-	_, r := e.run(ctx)
+	i, r := e.run(ctx)
 	if r == nil {
 		return nil, errors.New("no run")
 	}
-	sleepMs(r.Timing.Accounts)
+	e.pause(i, r.Timing.Accounts)
 	if r.Script.AccountsErr {
 		return nil, errors.New("scripted accounts failure")
 	}
@@ -312,7 +313,7 @@ func (e *env) SignBeaconAttestations(ctx context.Context, accounts []e2wtypes.Ac
 	e.trace = append(e.trace, ev)
 	e.mu.Unlock()
 
-	sleepMs(r.Timing.Sign)
+	e.pause(i, r.Timing.Sign)
 	if r.Script.SignErr {
 		return nil, errors.New("scripted signing failure")
 	}
@@ -347,7 +348,7 @@ func (e *env) SubmitAttestations(ctx context.Context, attestations []*phase0.Att
 	e.mu.Lock()
 	e.trace = append(e.trace, ev)
 	e.mu.Unlock()
-	sleepMs(r.Timing.Submit)
+	e.pause(i, r.Timing.Submit)
 	if r.Script.SubmitErr {
 		return errors.New("scripted submission failure")
 	}
